@@ -1234,7 +1234,7 @@ pub fn gen_src_model(rng: &mut Rng) -> (String, SrcModel) {
 }
 
 fn gen_src_model_once(rng: &mut Rng) -> (String, SrcModel) {
-    let shape = rng.weighted(&[30, 15, 25, 8, 10, 12]);
+    let shape = rng.weighted(&[28, 14, 24, 8, 9, 9, 8]);
     let inexact = rng.chance(1, 4);
     let n = rng.usize(2, 4);
     let names: Vec<String> = (0..n).map(|i| format!("v{i}")).collect();
@@ -1365,6 +1365,47 @@ fn gen_src_model_once(rng: &mut Rng) -> (String, SrcModel) {
                 push(&mut cons, SExp::Var(2), Cmp::Le, SExp::Var(0));
             }
             "slow-convergence"
+        }
+        6 => {
+            // an integer variable whose propagated bound is EXACTLY an integer t (often 0)
+            // but is computed from decimal coefficients whose float sums leave a residue of
+            // a few ulps on either side of it:  x + sum d_i p_i >= t + sum d_i,  0 <= p_i <= 1
+            let t = *rng.pick(&[0i64, 0, 0, 1, -1, 2]);
+            vars[0].dom = Dom::Int {
+                lo: (t - rng.range(1, 5)) as i32,
+                hi: (t + rng.range(1, 5)) as i32,
+            };
+            let k = n - 1;
+            let mut total = 0i64; // in tenths
+            let mut lhs = SExp::Var(0);
+            let upper_side = rng.chance(1, 2);
+            for i in 1..=k {
+                vars[i].dom = if rng.chance(2, 3) {
+                    Dom::Bool
+                } else {
+                    Dom::Real {
+                        lo: Some(0.0),
+                        hi: Some(1.0),
+                    }
+                };
+                let tenths = *rng.pick(&[1i64, 2, 2, 3, 5, 6, 7, 9]);
+                total += tenths;
+                let c = Dec {
+                    n: if upper_side { -tenths } else { tenths },
+                    d: 10,
+                };
+                lhs = SExp::Add(Box::new(lhs), Box::new(SExp::MulL(c, Box::new(SExp::Var(i)))));
+            }
+            let rhs = SExp::Num(Dec {
+                n: if upper_side { t * 10 - total } else { t * 10 + total },
+                d: 10,
+            });
+            push(&mut cons, lhs, if upper_side { Cmp::Le } else { Cmp::Ge }, rhs);
+            if rng.chance(1, 3) {
+                let l2 = affine(rng, n, true, 2);
+                push(&mut cons, l2, cmp3(rng), rhs_const(rng, true));
+            }
+            "integer-bound-with-float-residue"
         }
         _ => {
             // integer rounding with inexact coefficients: c*x <= c*k
